@@ -5,8 +5,15 @@
    is what the tie exercises with 1-byte..65535-byte deliveries).  Proved: the
    maximum lengths the application passes do not matter - two reads that fit in
    what is pending equal one read of the sum (counts, position, decoder state,
-   queue, cursor), and the pending audio shrinks by exactly what was taken. *)
-From VV Require Import Blocking VFile VFile_lemmas VFileDemo.
+   queue, cursor), and the pending audio shrinks by exactly what was taken; and
+   for WHOLE HISTORIES, across packet, page and link boundaries, any page table:
+   two sequences of successful reads with arbitrary requested lengths that
+   delivered the same number of samples leave the handle in the SAME state
+   (Read_lemmas.v: a read = priming independent of the length + handing out
+   min(pending, length); canonical consumption is additive). *)
+From VV Require Import Blocking VFile VFile_lemmas Term_lemmas Read_lemmas VFileDemo.
+From Coq Require Import ZArith List.
+Import ListNotations.
 Local Open Scope Z_scope.
 
 Theorem C10_request_lengths_do_not_matter :
@@ -26,6 +33,37 @@ Proof. exact dec_read_add. Qed.
 Print Assumptions C10_reads_compose.
 
 (* non-vacuity: on the demo file, 1 + 31 samples = 32 samples *)
+(* whole histories, any page table, any handle state, full or half rate *)
+Theorem C10_read_histories_depend_on_total_only :
+  forall s reqs1 reqs2 t s1 s2,
+    0 <= v_hs s -> reads s reqs1 = Some (t, s1) -> reads s reqs2 = Some (t, s2) -> s1 = s2.
+Proof. exact request_lengths_do_not_matter. Qed.
+Print Assumptions C10_read_histories_depend_on_total_only.
+
+(* a read is: fetch until something is pending (whatever was asked for), then hand out min(pending, asked) *)
+Theorem C10_read_is_prime_then_hand :
+  forall fuel s len,
+    read_float fuel s len = match prime fuel s with
+                            | PReady sp => hand sp len
+                            | PDone rc s1 => (rc, -1, s1)
+                            | PFuel s' => (OUT_OF_FUEL, -1, s')
+                            end.
+Proof. exact read_prime. Qed.
+Print Assumptions C10_read_is_prime_then_hand.
+
+(* non-vacuity: the demo file read in 27 requests of 16 samples and in 4 requests of 1000: 428 samples either
+   way (300 + 128, across the link boundary), same final state *)
+Example C10_demo_histories :
+  exists s1 s2, reads demo (repeat 16 27) = Some (428, s1) /\ reads demo (repeat 1000 4) = Some (428, s2) /\ s1 = s2.
+Proof.
+  destruct (reads demo (repeat 16 27)) as [[t1 s1]|] eqn:E1; [|vm_compute in E1; discriminate].
+  destruct (reads demo (repeat 1000 4)) as [[t2 s2]|] eqn:E2; [|vm_compute in E2; discriminate].
+  assert (t1 = 428) as -> by (apply (f_equal (fun o => match o with Some (t, _) => t | None => 0 end)) in E1; vm_compute in E1; congruence).
+  assert (t2 = 428) as -> by (apply (f_equal (fun o => match o with Some (t, _) => t | None => 0 end)) in E2; vm_compute in E2; congruence).
+  exists s1, s2. split; [reflexivity|]. split; [reflexivity|].
+  eapply request_lengths_do_not_matter; [|exact E1|exact E2]. vm_compute. discriminate.
+Qed.
+
 Example C10_demo :
   let '(_, _, s0) := read_float (read_fuel demo) demo 1 in
   v_rs s0 = INITSET /\ dec_pcmout (v_dec s0) = 31 /\
